@@ -134,6 +134,12 @@ func (h *Heap) havoc(ms *ModSet, why string) *Heap {
 					old := h.get(v)
 					if strings.HasPrefix(v, "E_") || strings.HasPrefix(v, "MD_") || strings.HasPrefix(v, "MV_") {
 						vc.assume(fmt.Sprintf("(forall ((r Int)) (! (=> (< r %s) (= (select %s r) (select %s r))) :pattern ((select %s r))))", oldc, c, old, c))
+						if strings.HasPrefix(v, "E_") {
+							// the same frame at the level of the slice accessor, so that facts stated with
+							// at_X over the old incarnation are found from terms over the new one
+							at := "at_" + strings.TrimPrefix(v, "E_")
+							vc.assume(fmt.Sprintf("(forall ((s Slice) (k Int)) (! (=> (< (s_base s) %s) (= (%s %s s k) (%s %s s k))) :pattern ((%s %s s k))))", oldc, at, c, at, old, at, c))
+						}
 					} else {
 						vc.assume(fmt.Sprintf("(forall ((r Int)) (! (=> (< (root r) %s) (= (select %s r) (select %s r))) :pattern ((select %s r))))", oldc, c, old, c))
 					}
@@ -209,6 +215,8 @@ type VC struct {
 	axInst      map[string]bool
 	clock0      string
 	entryHeap   *Heap
+	symCache    map[int]map[string]bool
+	defIndex    map[string][]int
 	curProps    []string
 	quiet       bool // drop obligations (pure evaluation)
 }
@@ -285,6 +293,169 @@ func (vc *VC) unsupportedf(format string, a ...interface{}) {
 // Query renders the SMT-LIB text of one obligation.
 func (vc *VC) Query(ob *Oblig, forCVC5 bool, wantModel bool) string {
 	return vc.QueryOpt(ob, forCVC5, wantModel, false)
+}
+
+// itemSyms caches the declared constants each item mentions.
+func (vc *VC) itemSyms(i int) map[string]bool {
+	if vc.symCache == nil {
+		vc.symCache = map[int]map[string]bool{}
+	}
+	if m, ok := vc.symCache[i]; ok {
+		return m
+	}
+	m := vc.symsOf(vc.items[i].S)
+	vc.symCache[i] = m
+	return m
+}
+
+func (vc *VC) symsOf(s string) map[string]bool {
+	m := map[string]bool{}
+	start := -1
+	inStr := false
+	for i := 0; i <= len(s); i++ {
+		var c byte = ' '
+		if i < len(s) {
+			c = s[i]
+		}
+		if inStr {
+			if c == '"' {
+				inStr = false
+			}
+			continue
+		}
+		if c == '"' {
+			inStr = true
+			continue
+		}
+		isSym := c == '_' || c == '!' || c == '.' || c == '$' || c == '@' || (c >= 'a' && c <= 'z') || (c >= 'A' && c <= 'Z') || (c >= '0' && c <= '9')
+		if isSym {
+			if start < 0 {
+				start = i
+			}
+		} else if start >= 0 {
+			w := s[start:i]
+			if vc.declSeen[w] {
+				m[w] = true
+			}
+			start = -1
+		}
+	}
+	return m
+}
+
+// definedSym: the constant an item defines, for items of the shapes (= c t) and (=> cond (= c t)).
+func definedSym(s string) string {
+	t := s
+	if strings.HasPrefix(t, "(=> ") {
+		// find the last top-level "(= " group
+		j := strings.LastIndex(t, " (= ")
+		if j < 0 {
+			return ""
+		}
+		t = t[j+1:]
+	}
+	if !strings.HasPrefix(t, "(= ") {
+		return ""
+	}
+	rest := t[3:]
+	k := strings.IndexAny(rest, " )")
+	if k <= 0 || rest[0] == '(' {
+		return ""
+	}
+	return rest[:k]
+}
+
+// prepareSlicing fills the symbol caches (single-threaded, before obligations are discharged in parallel).
+func (vc *VC) prepareSlicing() {
+	if vc.defIndex != nil {
+		return
+	}
+	vc.defIndex = map[string][]int{}
+	for i, it := range vc.items {
+		vc.itemSyms(i)
+		if it.Kind == itDef {
+			if d := definedSym(it.S); d != "" && vc.declSeen[d] {
+				vc.defIndex[d] = append(vc.defIndex[d], i)
+			}
+		}
+	}
+}
+
+// SlicedQuery keeps only the part of the encoding in the cone of influence of the goal:
+// definitions of the constants the goal (transitively) mentions, and the assumptions that
+// speak only about such constants (level 1) or about at least one of them (level 2).
+// Dropping hypotheses is sound for proving; a failed sliced query is retried in full.
+func (vc *VC) SlicedQuery(ob *Oblig, forCVC5 bool, level int) string {
+	needed := vc.symsOf(ob.Reach + " " + ob.Cond)
+	include := map[int]bool{}
+	for changed := true; changed; {
+		changed = false
+		add := func(i int) {
+			if include[i] {
+				return
+			}
+			include[i] = true
+			changed = true
+			for s := range vc.itemSyms(i) {
+				if !needed[s] {
+					needed[s] = true
+				}
+			}
+		}
+		for s := range needed {
+			for _, i := range vc.defIndex[s] {
+				add(i)
+			}
+		}
+		for i, it := range vc.items {
+			if include[i] {
+				continue
+			}
+			if it.Kind == itAssume && i >= ob.Pos {
+				continue
+			}
+			if it.Kind == itDef && definedSym(it.S) != "" {
+				continue
+			}
+			syms := vc.itemSyms(i)
+			if len(syms) == 0 {
+				add(i)
+				continue
+			}
+			hit, all := false, true
+			for s := range syms {
+				if needed[s] {
+					hit = true
+				} else {
+					all = false
+				}
+			}
+			if (level == 1 && all) || (level >= 2 && hit) {
+				add(i)
+			}
+		}
+	}
+	var b strings.Builder
+	if forCVC5 {
+		b.WriteString("(set-logic ALL)\n")
+	}
+	b.WriteString(goArith)
+	b.WriteString(vc.u.Prelude())
+	for _, d := range vc.decls {
+		b.WriteString(d)
+		b.WriteByte('\n')
+	}
+	fmt.Fprintf(&b, "(assert (> %s %d))\n", vc.clock0, len(vc.u.globals))
+	for i, it := range vc.items {
+		if !include[i] {
+			continue
+		}
+		b.WriteString("(assert ")
+		b.WriteString(it.S)
+		b.WriteString(")\n")
+	}
+	b.WriteString("(assert " + and(ob.Reach, not(ob.Cond)) + ")\n(check-sat)\n")
+	return b.String()
 }
 
 // QueryOpt with relaxed=true drops every quantified assertion: a model of the relaxed
